@@ -61,7 +61,9 @@ def run(ctx):
     # R (exhaustive): every edge of a TLC state graph covered by paths replayed on real StateDBs
     # plan = (rule sets, base account kinds, Ripemd, ops, snapshot depth, max paths replayed)
     if ctx.thorough:
-        plans = [([r], [0, 2, 3], 0, None, 1, 0) for r in RULES] + [(["eip158"], [1, 3], 1, None, 1, 0), (["amsterdam"], [1, 2], 1, None, 1, 0)]
+        plans = [([r], [0, 2, 3], 0, None, 1, 0) for r in ("cancun", "amsterdam")]
+        for r in ("pre158", "eip158"):      # unguarded rule sets: much larger graphs, split in two
+            plans += [([r], [0, 1, 3], 0, LEANOPS, 1, 0), ([r], [3], 0, None, 1, 0)]
     else:
         # one rule set per seed, its graph replayed completely: the guarded rule sets with all operations, the
         # unguarded ones (much larger graphs) without SetBalance/SetCode but with an empty base account
@@ -97,6 +99,14 @@ def run(ctx):
     bp = os.path.join(ctx.scratch, "mbt.json")
     write_json(bp, bs)
     ctx.drive(drv, ["-mode", "mbt", "-in", bp, "-ripemd", 2], name="c13-mbt", timeout=ctx.pick(1800, 7200))
+
+    # TODO-KNOWN-FINDING (pending coordinator decision, spec/state/NOTES.md "Candidate finding C13-F1"):
+    # Snapshot; SetCode; RevertToSnapshot on an account whose code was never read loses the code.  The
+    # histories above read the code before SetCode (as the EVM does); the probe keeps the reproduction alive
+    # and reports it as a note, not as a verdict.
+    ps, _ = ctx.drive(drv, ["-mode", "probe"], name="c13-probe", timeout=600)
+    if ps.get("extra", {}).get("setcode_revert_loses_uncached_code"):
+        ctx.notes.append("candidate finding C13-F1 reproduced (raw SetCode + revert loses uncached code); replay: spec/state/findings/C13-F1.json")
 
     # V: recorded executions of the real code validated by the trace specification
     tp = os.path.join(ctx.scratch, "trace.ndjson")
